@@ -214,6 +214,40 @@ Theorem C04_xml_feed_loop_done_means_all_input_consumed :
 Proof. exact xml_feed_loop_done_queue_empty. Qed.
 Print Assumptions C04_xml_feed_loop_done_means_all_input_consumed.
 
+(* ONE EOF, delivered LAST (half of the fourth clause): whenever Tokenizer::end answers normally, the newest token
+   delivered is the EOF token - any machine, any fuel, any sink, both tokenizers.  An EOF arm never reads
+   ([eof_ok], decided on the regenerated tables), so it can answer "done" only through its Eof terminator, which has
+   just emitted the token.  (That no EOF token is delivered BEFORE end() stays with the single-EOF oracle of the
+   harness; step arms have no Eof terminator: C04_html/xml_step_arms_never_answer_eof.) *)
+Theorem C04_html_end_delivers_eof_last :
+  forall simd ent c1 sk fuel m,
+  let r := tok_end [] fq_next fq_peek (@app N) (fun q => q) fq_run1 html_flavour true html_table simd ent c1 sk fuel m in
+  snd r = SSuspend -> newest_is_eof (fst r).
+Proof. exact html_end_delivers_eof_last. Qed.
+Print Assumptions C04_html_end_delivers_eof_last.
+
+Theorem C04_xml_end_delivers_eof_last :
+  forall simd ent c1 sk fuel m,
+  let r := tok_end [] fq_next fq_peek (@app N) (fun q => q) fq_run1 xml_flavour true xml_table simd ent c1 sk fuel m in
+  snd r = SSuspend -> newest_is_eof (fst r).
+Proof. exact xml_end_delivers_eof_last. Qed.
+Print Assumptions C04_xml_end_delivers_eof_last.
+
+Theorem C04_newest_is_eof_means : forall (m : mach hstate (list N)),
+  newest_is_eof m <-> exists l k o, mout m = (TEof, l, k) :: o.
+Proof. exact newest_is_eof_means. Qed.
+Print Assumptions C04_newest_is_eof_means.
+
+Example C04_consumed_example :
+  let r := feed [] fq_next fq_peek (@app N) (fun q => q) fq_run1 html_flavour true html_table
+                (simd_first_guard, simd_tail_stop, simd_tail_newline) (fun _ => None) (fun _ => None)
+                {| sk_resp := []; sk_foreign := false |} 100
+                (mkmach (init_cfg HData None false) [120; 38; 97; 109]%N [] 0%N) in
+  snd r = SSuspend /\ mq (fst r) = [] /\
+  match cref (mc (fst r)) with Some cr => cr_buf cr = [97; 109]%N | None => False end.
+Proof. exact consumed_ex. Qed.
+Print Assumptions C04_consumed_example.
+
 Theorem C04_xml_step_arms_never_answer_eof : forall s, noeofb (t_step xml_table s) = true.
 Proof. exact xml_noeof_all. Qed.
 Print Assumptions C04_xml_step_arms_never_answer_eof.
